@@ -13,7 +13,7 @@ from ..actors import World, make_async_source, make_async_fn, make_ref_fn, make_
 from ..choice import Chooser, Streams
 from ..loop import PAUSE, Cancel
 from ..runner import Outcome
-from ..tools import TOOLS, draw_cfg, Gen, lib
+from ..tools import TOOLS, AGGS, AGG_NAMES, draw_cfg, Gen, lib
 from .common import set_interrupts, COMPONENTS_BASE, run_sim, new_sim, finish_outcome, enumerate_faults
 
 PID = "C08"
@@ -106,6 +106,12 @@ def prepare(ch):
                 ops.append(("leave",))
                 continue
             kind = 1
+        if kind == 0 and ch.chance(1, 6):
+            # an awaitable aggregation over the handle (it takes what the stdlib function would take from a shared iterator)
+            gt = Gen(ch, cfg, "t%d" % len(ops))
+            gt.uid = 1000 * (len(ops) + 1)
+            ops.append(("agg", AGGS[AGG_NAMES[ch.draw(len(AGG_NAMES))]].gen(gt)))
+            continue
         if kind == 0:
             gt = Gen(ch, cfg, "t%d" % len(ops))
             gt.uid = 1000 * (len(ops) + 1)
@@ -127,11 +133,15 @@ def prepare(ch):
             if name == "merge":
                 # merge promises the stdlib's order for sorted inputs only: plain ascending order everywhere, and the
                 # underlying iterator of the scope is sorted too
-                spec.fns = [None]
+                spec.fns = [gt.fn("keyval", 0) if ch.chance(1, 2) else None]  # (a key that keeps that order)
                 spec.p["reverse"] = False
                 for p_ in spec.srcs:
                     p_.items = sorted([i for i in p_.items if type(i).__name__ == "Item"], key=lambda i: i.key)
                 prep.sort_underlying = True
+            if any(f is not None for f in spec.fns) and ch.chance(1, 6):
+                # the tool's callable fails (with a TypeError) at one of its first calls: the error is handled inside the
+                # block, and the handle goes on from where the stdlib tool would have left a shared iterator
+                spec.p["c08_fault"] = ch.draw(3)
             # the handle takes the place of one of the tool's iterable arguments (not always the first)
             # (drivers such as groupby's deliver several events per item: more steps are needed to get anywhere)
             take = ch.draw(5) if ch.chance(2, 3) else ch.between(5, 10)
@@ -175,7 +185,9 @@ def fault_lists(prep, faults):
 def describe_ops(ops):
     out = []
     for op in ops:
-        if op[0] == "tool":
+        if op[0] == "agg":
+            out.append(["aggregation", op[1].describe()])
+        elif op[0] == "tool":
             out.append(["tool", op[1].describe(), "take %d" % op[2], ("close", "exhaust", "abandon")[op[3]], "handle is argument %d" % op[4]])
         else:
             out.append(list(op))
@@ -273,6 +285,8 @@ def run_block(prep, st, mode, pos, interrupts):
                 w = World(sim, own_log=True)
                 others = [make_async_source(w, p).obj for n_, p in enumerate(spec.srcs) if n_ != hpos]
                 fns = [make_async_fn(w, p).obj if p is not None else None for p in spec.fns]
+                if spec.p.get("c08_fault") is not None:
+                    w.set_fault([p.name for p in spec.fns if p is not None][0], spec.p["c08_fault"], TypeError("prepared"))
                 app = {"op": i, "tool": spec.tool, "items": [], "end": None}
                 res["apps"].append(app)
                 others.insert(hpos, h)
@@ -316,6 +330,20 @@ def run_block(prep, st, mode, pos, interrupts):
                             await settle()
                 finally:
                     it = None
+                if underlying_closed():
+                    res["inside_closed"] = True
+                i += 1
+            elif op[0] == "agg":
+                spec = op[1]
+                w = World(sim, own_log=True)
+                fns = [make_async_fn(w, p).obj if p is not None else None for p in spec.fns]
+                app = {"op": i, "tool": "agg:" + spec.tool, "items": [], "end": None}
+                res["apps"].append(app)
+                try:
+                    app["items"].append(ident(await AGGS[spec.tool].a(L, spec, [h], fns)))
+                    app["end"] = "value"
+                except (ValueError, TypeError) as err:
+                    app["end"] = type(err).__name__
                 if underlying_closed():
                     res["inside_closed"] = True
                 i += 1
@@ -393,6 +421,8 @@ def reference(prep, upto_apps):
                 others = [make_ref_source(w, p).obj for n_, p in enumerate(spec.srcs) if n_ != hpos]
                 others.insert(hpos, shared)
                 fns = [make_ref_fn(w, p).obj if p is not None else None for p in spec.fns]
+                if spec.p.get("c08_fault") is not None:
+                    w.set_fault([p.name for p in spec.fns if p is not None][0], spec.p["c08_fault"], TypeError("prepared"))
                 app = {"op": i, "tool": spec.tool, "items": [], "end": None}
                 apps.append(app)
                 try:
@@ -431,6 +461,18 @@ def reference(prep, upto_apps):
                 elif j == 0:
                     # the stdlib refuses at construction, the async tool at its first step: not reached
                     app["end"] = ("closed", "exhausted", "abandoned")[then] if then != 1 else app["end"]
+                i += 1
+            elif op[0] == "agg":
+                spec = op[1]
+                w = World()
+                fns = [make_ref_fn(w, p).obj if p is not None else None for p in spec.fns]
+                app = {"op": i, "tool": "agg:" + spec.tool, "items": [], "end": None}
+                apps.append(app)
+                try:
+                    app["items"].append(ident(AGGS[spec.tool].r(spec, [shared], fns)))
+                    app["end"] = "value"
+                except (ValueError, TypeError) as err:
+                    app["end"] = type(err).__name__
                 i += 1
             elif op[0] == "pull":
                 app = {"op": i, "tool": "direct", "items": [], "end": None}
